@@ -171,23 +171,19 @@ def export_pt_cases(rng, pt, els, tmpdir):
     except Exception as ex:  # noqa
         n = type(ex).__name__
         err = n if n in scen.EXN else 'Other:' + n
-    out = []
+    files = []
     for el in els:
         path = os.path.join(folder, el.name + '.csv')
-        if os.path.exists(path):
-            df = pd.read_csv(path, float_precision='round_trip')
-            exp = ('ok', [(c, [float(v) for v in df[c]]) for c in df.columns])
-            e = f'(ExpOk {scen.clist([f"({lib.coq_str(c)}, {scen.clist([lib.flit(v) for v in vs])})" for c, vs in exp[1]])})'
-        elif err is not None:
-            exp = ('err', err)
-            e = f'(ExpErr {err if not err.startswith("Other") else "OracleMiss"})'
-        else:
-            exp = ('err', 'Other:file-missing')
-            e = '(ExpErr OracleMiss)'
-        out.append((f'(RExport O {ctimes(pt)} {crec(el)} {cunits(us, tu)} {e})', dict(kind='export-powertrain', element=el.name, units=dict(us), time_unit=tu, exp=exp)))
-        if exp[0] == 'err':
+        if not os.path.exists(path):
             break
-    return out
+        df = pd.read_csv(path, float_precision='round_trip')
+        files.append((el.name, [(c, [float(v) for v in df[c]]) for c in df.columns]))
+    cfiles = scen.clist(['(%s, %s)' % (lib.coq_str(nm), scen.clist([f"({lib.coq_str(c)}, {scen.clist([lib.flit(v) for v in vs])})" for c, vs in cols]))
+                         for nm, cols in files])
+    cerr = 'None' if err is None else f'(Some {err if not err.startswith("Other") else "OracleMiss"})'
+    exp = ('ok', [c for _, cols in files for c in cols]) if err is None else ('err', err)
+    return [(f'(RExportAll O {ctimes(pt)} {scen.clist([crec(e) for e in els])} {cunits(us, tu)} {cfiles} {cerr})',
+             dict(kind='export-powertrain', elements=[e.name for e in els], units=dict(us), time_unit=tu, exp=exp, files_written=len(files)))]
 
 
 def export_case(rng, pt, el, tmpdir):
